@@ -334,7 +334,7 @@ pub fn gen_c10(rc: &RunCtx, allow_f10: bool) -> WriterCase {
         prog.end = End::FinalizeXml(XmlScript::Fail);
     }
     let (wchunk, rchunk, sink) = draw_chunks(rc.run_seed);
-    WriterCase { prog, wchunk, rchunk, sink }
+    WriterCase { prog, wchunk, rchunk, sink, legacy_blob_headers: false }
 }
 
 fn uses_non_ncname(prog: &Program) -> bool {
@@ -458,6 +458,7 @@ impl Prop for C10 {
             wchunk: Chunk::Full,
             rchunk: Chunk::Full,
             sink: Chunk::Full,
+            legacy_blob_headers: false,
         };
         vec![("F10 extension namespace '0129' starts with a digit".into(), f10)]
     }
